@@ -726,7 +726,7 @@ def run(ctx):
     s = ctx.seed * 1000
     shards = []
     for k in range(8):
-        shards.append(("loss", ["tridonic", "hasseb"][k % 2], s + k, 600 if q else 30000))
+        shards.append(("loss", ["tridonic", "hasseb"][k % 2], s + k, 1800 if q else 30000))
     for k, drv in enumerate(["tridonic", "tridonic", "hasseb", "luba", "sci"]):
         shards.append(("cancel", drv, s + 20 + k, 10 if q else 200))
     for k in range(4):
